@@ -150,7 +150,7 @@ func (this *Hnsw) Load(r io.Reader, header bool) error {
 	var distance float32
 
 	uuidBuf := make([]byte, uuid.Size)
-	if n, err := r.Read(uuidBuf); err != nil {
+	if n, err := io.ReadFull(r, uuidBuf); err != nil {
 		if err == io.EOF && n == 0 {
 			// Save writes nothing for an empty index
 			for i, _ := range this.vertices {
@@ -183,7 +183,7 @@ func (this *Hnsw) Load(r io.Reader, header bool) error {
 		verticesShard := this.vertices[i]
 
 		for i := 0; i < int(shardSize); i++ {
-			if _, err := r.Read(uuidBuf); err != nil {
+			if _, err := io.ReadFull(r, uuidBuf); err != nil {
 				return err
 			}
 			id, err := uuid.FromBytes(uuidBuf)
@@ -217,7 +217,7 @@ func (this *Hnsw) Load(r io.Reader, header bool) error {
 	// Load edges
 	for _, verticesShard := range this.vertices {
 		for i := 0; i < len(verticesShard); i++ {
-			if _, err := r.Read(uuidBuf); err != nil {
+			if _, err := io.ReadFull(r, uuidBuf); err != nil {
 				return err
 			}
 			id, err := uuid.FromBytes(uuidBuf)
@@ -231,7 +231,7 @@ func (this *Hnsw) Load(r io.Reader, header bool) error {
 					return err
 				}
 				for j := 0; j < int(numEdges); j++ {
-					if _, err := r.Read(uuidBuf); err != nil {
+					if _, err := io.ReadFull(r, uuidBuf); err != nil {
 						return err
 					}
 					neighborId, err := uuid.FromBytes(uuidBuf)
